@@ -160,6 +160,24 @@ def callable_ref(cx):
     return RefFn("reference")
 
 
+_RTC_C10 = {}
+
+
+def replay_with_lattice(kind):
+    """native replay of a refuted slicer obligation: the exhaustive run of the real slicers over the float lattice of
+    vf/rt/C10.py (every value vector of length <= 5 over the stated lattice, every option combination); confirmed if a
+    scenario of this slicer kind fails there"""
+    if "r" not in _RTC_C10:
+        from vf.rt import C10
+        _RTC_C10["r"] = C10.run("quick", 20260928)
+    fails = [f for f in _RTC_C10["r"]["failures"] if f["case"].startswith(kind + "/")]
+    if fails:
+        f = fails[0]
+        return {"confirmed": True, "detail": f"{f['case']}: {f['clause']} - {f['detail']}"[:900], "inputs": f.get("inputs")}
+    return {"confirmed": False, "detail": f"no scenario of the {kind} slicer fails on the lattice ({_RTC_C10['r']['evaluations']} evaluations)"}
+
+
+
 WIDTH_CASES = [dict(right_open=ro, reference=ref, value_range=vr)
                for ro in (True, False) for ref in ("center", "left", "right", "Center", "callable") for vr in ("none", "both", "lo_only", "hi_only")] + \
               [dict(right_open=True, reference="bogus", value_range="none"), dict(right_open=True, reference=42, value_range="none")]
@@ -170,6 +188,9 @@ class WidthSlice(Contract):
     """intervals [min + j w, min + (j+1) w) (or left-open) for j < ceil((max - min)/w)+...: every observation in
     the covered range is in exactly one interval; masks are aligned with input positions and are a function of the
     value; boundaries contain their members and do not overlap; references as configured"""
+
+    def replay(self, case, ob):
+        return replay_with_lattice("width")
 
     def case_label(self, case):
         return f"right_open={case['right_open']},reference={case['reference']},value_range={case['value_range']}"
@@ -269,6 +290,9 @@ class NumberSlice(Contract):
     """n_intervals equal-width intervals over [lo, hi): interval j = [lo + j s, lo + (j+1) s), the last one closed
     when include_max; masks aligned and value-based; boundaries/references as configured"""
 
+    def replay(self, case, ob):
+        return replay_with_lattice("number")
+
     def case_label(self, case):
         return f"include_max={case['include_max']},reference={case['reference']},value_range={case['value_range']}"
 
@@ -354,6 +378,9 @@ PPI_CASES = [dict(last_full=lf, rem=rem) for lf in (True, False) for rem in ("ze
 class PointsSlice(Contract):
     """chunks of n_points consecutive order statistics: mask j marks, by INPUT position, the observations whose
     rank falls in chunk j (remainder chunk first if last_full else last)"""
+
+    def replay(self, case, ob):
+        return replay_with_lattice("points")
 
     def case_label(self, case):
         return f"last_full={case['last_full']},remainder={case['rem']}" + (",reference=str" if case.get("bad_reference") else "")
